@@ -248,6 +248,8 @@ func (in *Interp) svCall(fr *Frame, name string, args []Value, fn *ssa.Function)
 		return int64(len(in.events))
 	case "Steps":
 		return int64(in.steps)
+	case "Tick":
+		return nil
 	case "MoreFuel":
 		// a harness that knows one of its paths is long (a 64 KiB program) asks
 		// for a larger unwinding bound for this path; still a bound
@@ -340,6 +342,10 @@ func (in *Interp) assertion(id string, cond Value) {
 		in.results.AssertQueries++
 		switch r.Res {
 		case "sat":
+			if m := in.refineUF(q, r.Model); m != nil {
+				in.events = append(in.events, "stub results computed natively for this counterexample (ufrefine)")
+				r.Model = m
+			}
 			in.violation(id, r.Model, "")
 			in.results.lastNewViolation = in.harness + "|" + id
 		case "unknown":
